@@ -89,6 +89,15 @@ Section Proofs.
     - apply nth_error_None in E. lia.
   Qed.
 
+  Lemma skipn_add : forall (l : list obs) x y, skipn (x + y) l = skipn x (skipn y l).
+  Proof.
+    intros l x y. revert l. induction y as [|y IH]; intro l.
+    - now rewrite Nat.add_0_r.
+    - rewrite Nat.add_succ_r. destruct l as [|a l]; simpl.
+      + now destruct x.
+      + apply IH.
+  Qed.
+
   Lemma seq_add_start : forall c s a,
     map Z.of_nat (seq (a + s) c) = map (fun m => Z.of_nat a + Z.of_nat m) (seq s c).
   Proof.
@@ -244,10 +253,11 @@ Section Proofs.
       { clear - C. revert b C. induction cuts as [|c cuts IHc]; intros b C; simpl in C; [lia|].
         destruct C as [? C]. apply IHc in C. lia. }
       destruct (IH b ltac:(lia) C) as [ps [P Q]].
-      simpl. rewrite getitem_slice_ab by assumption. rewrite P.
-      eexists. split; [reflexivity|]. simpl. rewrite content_fresh, Q.
+      eexists. split.
+      { cbn [pieces res_all]. rewrite getitem_slice_ab by assumption. rewrite P. reflexivity. }
+      cbn [map concat]. rewrite content_fresh, Q.
       replace (Z.to_nat b) with (Z.to_nat (b - a) + Z.to_nat a)%nat by lia.
-      rewrite <- skipn_skipn. apply firstn_skipn.
+      rewrite skipn_add. apply firstn_skipn.
   Qed.
 
   (* cutting a dataset at ANY increasing sequence of cut points 0 <= c1 <= ... <= n
@@ -298,10 +308,13 @@ Proof.
   induction ls as [|l ls IH]; intro p; simpl; [tauto|].
   destruct (l =? p) eqn:E.
   - apply Z.eqb_eq in E. subst l. rewrite IH. rewrite <- seq_shift, map_map.
-    replace (p + Z.of_nat 0) with p by lia.
-    split; intro H.
-    + f_equal. rewrite H at 1. apply map_ext. intros. lia.
-    + injection H as H. rewrite H at 1. apply map_ext. intros. lia.
+    replace (p + 0) with p by lia.
+    assert (M : map (fun m : nat => p + 1 + Z.of_nat m) (seq 0 (length ls))
+                = map (fun x : nat => p + Z.of_nat (S x)) (seq 0 (length ls)))
+      by (apply map_ext; intros; lia).
+    rewrite M. split; intro H.
+    + f_equal. exact H.
+    + injection H as H. exact H.
   - apply Z.eqb_neq in E. split; [discriminate|]. intro H. injection H as H _. lia.
 Qed.
 
@@ -327,7 +340,7 @@ Proof.
     + exact N.
     + intros [|r] R; simpl; [lia|]. rewrite F by lia. lia.
   - apply Z.eqb_neq in E. injection H as <-. replace (p - p) with 0 by lia.
-    repeat split; simpl length; try lia; simpl; [congruence | intros; lia].
+    split; [simpl length; lia|]. split; [simpl; congruence|]. intros r R. simpl in R. lia.
 Qed.
 
 Theorem analysis_keyerror_first : forall ls q, analysis_keyerror ls = Some q ->
@@ -336,7 +349,7 @@ Theorem analysis_keyerror_first : forall ls q, analysis_keyerror ls = Some q ->
 Proof.
   intros ls q H. apply analysis_keyerror_from_some in H.
   replace (q - 0) with q in H by lia. destruct H as [B [N F]].
-  repeat split; try lia; [exact N | intros r R; rewrite F by exact R; lia].
+  split; [lia|]. split; [exact N|]. intros r R. rewrite F by exact R. lia.
 Qed.
 
 Lemma fresh_has_no_keyerror : forall (obs : Type) (l : list obs),
